@@ -39,32 +39,31 @@ func scannerClasses(p *core.Program) ([]radixClass, string) {
 		if fd.Body == nil {
 			continue
 		}
+		// the alphabet is selected by prefix tests `if <scanner>.accept("xX") { <deliver A> }`,
+		// where delivering is assigning the constant to a variable or returning it; every
+		// alphabet delivered outside such a test is the default (they must all be the same)
 		var classes []radixClass
-		var digitsVar types.Object
-		// digits := "0123…"
-		ast.Inspect(fd.Body, func(n ast.Node) bool {
-			as, ok := n.(*ast.AssignStmt)
-			if !ok || len(as.Lhs) != 1 || len(as.Rhs) != 1 {
-				return true
-			}
-			id, ok := as.Lhs[0].(*ast.Ident)
-			if !ok {
-				return true
-			}
-			s, ok := constStringOf(info, as.Rhs[0])
-			if !ok || !strings.Contains(s, "0") || !strings.Contains(s, "1") {
-				return true
-			}
-			if digitsVar == nil {
-				digitsVar = objOf(info, id)
-				classes = append(classes, radixClass{"", s, p.Pos(as.Pos())})
-			}
-			return true
-		})
-		if digitsVar == nil {
-			continue
+		isAlphabet := func(e ast.Expr) (string, bool) {
+			a, ok := constStringOf(info, e)
+			return a, ok && strings.Contains(a, "0") && strings.Contains(a, "1")
 		}
-		// if l.accept(P) { digits = A }
+		delivered := func(st ast.Stmt) (string, bool) {
+			switch x := st.(type) {
+			case *ast.AssignStmt:
+				if len(x.Lhs) == 1 && len(x.Rhs) == 1 {
+					if _, isID := x.Lhs[0].(*ast.Ident); isID {
+						return isAlphabet(x.Rhs[0])
+					}
+				}
+			case *ast.ReturnStmt:
+				if len(x.Results) == 1 {
+					return isAlphabet(x.Results[0])
+				}
+			}
+			return "", false
+		}
+		underPrefix := map[ast.Stmt]bool{}
+		var pairs []radixClass
 		ast.Inspect(fd.Body, func(n ast.Node) bool {
 			is, ok := n.(*ast.IfStmt)
 			if !ok {
@@ -79,16 +78,29 @@ func scannerClasses(p *core.Program) ([]radixClass, string) {
 				return true
 			}
 			for _, st := range is.Body.List {
-				if as, ok := st.(*ast.AssignStmt); ok && len(as.Lhs) == 1 && len(as.Rhs) == 1 {
-					if id, ok := as.Lhs[0].(*ast.Ident); ok && objOf(info, id) == digitsVar {
-						if a, ok := constStringOf(info, as.Rhs[0]); ok {
-							classes = append(classes, radixClass{pfx, a, p.Pos(as.Pos())})
-						}
-					}
+				if a, ok := delivered(st); ok {
+					underPrefix[st] = true
+					pairs = append(pairs, radixClass{pfx, a, p.Pos(st.Pos())})
 				}
 			}
 			return true
 		})
+		defaults := map[string]string{}
+		ast.Inspect(fd.Body, func(n ast.Node) bool {
+			if st, ok := n.(ast.Stmt); ok && !underPrefix[st] {
+				if a, ok := delivered(st); ok {
+					defaults[a] = p.Pos(st.Pos())
+				}
+			}
+			return true
+		})
+		if len(pairs) == 0 || len(defaults) != 1 {
+			continue
+		}
+		for a, pos := range defaults {
+			classes = append(classes, radixClass{"", a, pos})
+		}
+		classes = append(classes, pairs...)
 		if len(classes) > len(best) {
 			best = classes
 		}
